@@ -707,6 +707,22 @@ fn failed_save_case(case: u64, rng: &mut Rng, rep: &mut Report) {
     }
 }
 
+/// Forced schedule `tvmon::sched::stale_gc_window_schedule`: the old generation finishes its merge
+/// while the successor's commit stands between the replacement of meta.json and the directory sync.
+fn gc_window_case(case: u64, rng: &mut Rng, rep: &mut Report) {
+    rep.eval();
+    let out = tvmon::sched::stale_gc_window_schedule(rng);
+    for c in &out.counters {
+        rep.count(c, 1);
+    }
+    for (sig, d) in out.problems {
+        rep.violation(format!("gc-window:{sig}"), json!({"case": case, "shape": out.shape, "detail": d}));
+    }
+    if out.forced {
+        rep.nontrivial(format!("gc-window:{}", out.shape));
+    }
+}
+
 fn main() {
     let ctx = Ctx::from_env("C10", "exploration");
     let mut rep = run_cases(&ctx, "hist", ctx.scale(150, 6000) as u64, history_case);
@@ -714,10 +730,11 @@ fn main() {
     rep.merge(run_cases(&ctx, "forced-reader", ctx.scale(60, 3000) as u64, forced_reader_case));
     rep.merge(run_cases(&ctx, "crash", ctx.scale(12, 400) as u64, crash_case));
     rep.merge(run_cases(&ctx, "failed-save", ctx.scale(60, 3000) as u64, failed_save_case));
+    rep.merge(run_cases(&ctx, "gc-window", ctx.scale(40, 1500) as u64, gc_window_case));
     simple_finish(
         &ctx,
         rep,
-        "case = (a) one generated history on MonDir with the online delete monitor T3 and, at quiescent points (commit returned, merges awaited, GC run), directory == files of the committed segments + meta.json + .managed.json and .managed.json == managed files present; (b) one forced schedule with a worker or merge thread parked at its k-th file creation/write/terminate while GC and commits run; (c) recovered crash images continued with one commit + GC and checked the same way; (d) a failing meta.json write (commit / prepare+commit / end of a merge) followed by GC on the same writer: the commit still on storage keeps every file. Non-trivial = GC actually deleted files / the gate was reached / the image was recoverable; distinct = op-kind set x config, gate position, boundary kind x outcome.",
+        "case = (a) one generated history on MonDir with the online delete monitor T3 and, at quiescent points (commit returned, merges awaited, GC run), directory == files of the committed segments + meta.json + .managed.json and .managed.json == managed files present; (b) one forced schedule with a worker or merge thread parked at its k-th file creation/write/terminate while GC and commits run; (c) recovered crash images continued with one commit + GC and checked the same way; (d) a failing meta.json write (commit / prepare+commit / end of a merge) followed by GC on the same writer: the commit still on storage keeps every file; (e) forced schedule gc-window: the old generation of a dropped writer finishes its merge while the commit of the successor stands between the meta.json replacement and the directory sync (T3 against the durable meta). Non-trivial = GC actually deleted files / the gate was reached / the image was recoverable; distinct = op-kind set x config, gate position, boundary kind x outcome.",
         ctx.scale(40, 200),
         &["quiescence is reached by wait_merging_threads + a new writer + explicit garbage_collect_files", "crash images follow the durability model of DESIGN.md §3.1"],
     );
